@@ -9,7 +9,7 @@ PROP = {
             "operator spelling is executed; non-trivial = the triple is not all-equal (some operand is non-square); every unequal-shape request "
             "(one isolated child each) is non-trivial; distinct = hash of shapes and entries / of the request text",
     "floors": {
-        "quick": {"cases": 7000, "distinct_nontrivial": 5000,
+        "quick": {"cases": 13000, "distinct_nontrivial": 15000,
                   "clauses": {"unequal-shapes-exit-with-diagnostic": 2000, "product-entries-are-sums-aik-bkj": 5000,
                               "sums-differences-elementwise": 50000, "block-constructor-definition": 5000}},
         "thorough": {"cases": 250000, "distinct_nontrivial": 200000,
